@@ -215,16 +215,45 @@ type c03IPACase struct {
 
 var pointClasses = []string{"0", "1", "2", "7f", "80", "fe", "ff", "100", "101", "ffffffffffffffff", "10000000000000000", "100000000000000000000000000000000"}
 
+// montInv256 is 2^-256 mod r: a point k*montInv256 has the small integer k as its internal (Montgomery) representation.
+var montInv256 = new(big.Int).ModInverse(new(big.Int).Lsh(big.NewInt(1), 256), ref.R)
+
 func genPointHex(t *rapid.T) string {
-	switch rapid.IntRange(0, 3).Draw(t, "point_class") {
-	case 0:
+	switch rapid.IntRange(0, 7).Draw(t, "point_class") {
+	case 0, 1:
 		return rapid.SampledFrom(pointClasses).Draw(t, "point_fixed")
-	case 1:
-		return hx.HexBig(new(big.Int).Sub(ref.R, big.NewInt(int64(rapid.IntRange(1, 3).Draw(t, "point_neg")))))
 	case 2:
+		return hx.HexBig(new(big.Int).Sub(ref.R, big.NewInt(int64(rapid.IntRange(1, 3).Draw(t, "point_neg")))))
+	case 3:
 		return hx.HexBig(big.NewInt(int64(rapid.IntRange(0, 600).Draw(t, "point_small"))))
+	case 4: // limb-aligned: a*2^64 + b*2^128 + c*2^192 + small (low 64 bits look like a domain index)
+		v := big.NewInt(int64(rapid.IntRange(0, 300).Draw(t, "point_low")))
+		for i, sh := range []uint{64, 128, 192} {
+			k := rapid.SampledFrom([]int64{0, 0, 1, 2, 255, 256}).Draw(t, fmt.Sprintf("point_limb%d", i))
+			v.Add(v, new(big.Int).Lsh(big.NewInt(k), sh))
+		}
+		if v.Cmp(big.NewInt(600)) <= 0 {
+			v.Add(v, new(big.Int).Lsh(big.NewInt(1), 64))
+		}
+		return hx.HexBig(v.Mod(v, ref.R))
+	case 5: // small internal (Montgomery) representation
+		k := big.NewInt(int64(rapid.IntRange(0, 600).Draw(t, "point_mont")))
+		return hx.HexBig(k.Mul(k, montInv256).Mod(k, ref.R))
+	case 6: // limb-pattern internal representation
+		raw := scalarSpec{Kind: "limbs", Seed: rapid.Uint64().Draw(t, "point_ms"), Digits: rapid.SliceOfN(rapid.IntRange(0, 6), 4, 4).Draw(t, "point_ml")}.value()
+		return hx.HexBig(raw.Mul(raw, montInv256).Mod(raw, ref.R))
 	}
 	return hx.HexBig(hx.ExpandFr(rapid.Uint64().Draw(t, "point_seed"), "point", 0))
+}
+
+// forcedPoints are evaluated in every shard of C03/C04 with a shard-specific dense polynomial.
+func forcedPoints() []string {
+	pts := []string{"fe", "ff", "100", "101", "0", hx.HexBig(rMinus1), "10000000000000000", "10000000000000005", "1000000000000000000000000000000ff"}
+	for _, k := range []int64{1, 5, 255, 256} {
+		v := big.NewInt(k)
+		pts = append(pts, hx.HexBig(v.Mul(v, montInv256).Mod(v, ref.R)))
+	}
+	return pts
 }
 
 func genC03IPA(t *rapid.T) c03IPACase {
@@ -281,6 +310,11 @@ func TestC03(t *testing.T) {
 	s := hx.Start(t, "C03")
 	defer s.Finish()
 	s.Guard(func() { Cfg() })
+	for i, pt := range forcedPoints() {
+		if hx.Thorough() || (i+hx.Shard())%3 == 0 || i < 3 {
+			c03IPA.EvalCase(s, c03IPACase{Poly: polySpec{Kind: "dense", Seed: uint64(1000*hx.Seed() + hx.Shard())}, Point: pt, Rep: hx.Shard() % 4, Label: "b"})
+		}
+	}
 	c03Multi.Run(s, hx.PerShard(hx.Pick(200, 4000)))
 	c03IPA.Run(s, hx.PerShard(hx.Pick(64, 1200)))
 }
